@@ -121,7 +121,9 @@ CHECKS = {
              'id, own result/error), every method must have run exactly once, and with concurrent_batch=False the '
              'in-flight intervals must be pairwise disjoint and in request order. Interleavings are sampled (distinct '
              'interleaving signatures reported), not enumerated.'
-             ' Environment and configuration knobs drawn per run for every server-side family: transparent user hooks (message subclasses overriding from_json with the documented signature and defining __bool__, delegating loader / dumper / encoder / decoder), registered callables as functions / functools.partial objects / instances with __call__, one function published under several names (with and without injected context, behind a validator that hides a parameter, under a non-ASCII name), a class-based view with a static method and optionally a context named like a method parameter, error handlers as partials / callable instances / functions returning a Future, the library loggers at DEBUG in a quarter of the runs, a fifth of the documents respelled in another legal JSON form.',
+             ' Environment and configuration knobs drawn per run for every server-side family: transparent user hooks (message subclasses overriding from_json with the documented signature and defining __bool__, delegating loader / dumper / encoder / decoder), registered callables as functions / functools.partial objects / instances with __call__, one function published under several names (with and without injected context, behind a validator that hides a parameter, under a non-ASCII name), a class-based view with a static method and optionally a context named like a method parameter, error handlers as partials / callable instances / functions returning a Future, the library loggers at DEBUG in a quarter of the runs, a fifth of the documents respelled in another legal JSON form.'
+             ' async.duplicates: the same notification two or three times in one batch, judged against the reference '
+             'dispatcher (every occurrence runs once).',
         note='Trusted: SimLoop (subclass of asyncio.BaseEventLoop), ref_chain. Exhaustive enumeration of interleavings '
              'would be model checking and is not claimed.',
         technique='deterministic simulation: seeded schedulers over suspending batch elements, in-flight interval oracle',
